@@ -88,28 +88,50 @@ Theorem c08_single_child_needs_none : forall t q minm st p,
 Proof. exact vstep_single_child. Qed.
 Print Assumptions c08_single_child_needs_none.
 
-(* ... FULL STATEMENT (refuted by the unchanged code, finding F7): "the entry of a parent with a
-   single child never decides whether the cache is created":
-     forall t tb refg qg minm p l, In p (all_parents t) -> length (children t p) <= 1 ->
-       (exists c, create_cache (tset p [] tb) refg qg (Some t) minm = MOk c) ->
-       (forall g, In g l -> In g refg) ->      (* l not consulted by any descendant here *)
-       exists c, create_cache (tset p l tb) refg qg (Some t) minm = MOk c.
-   The loop of create_marker_cache_from_specified_markers visits every key of the table. *)
-Theorem c08_single_child_needs_none_refuted :
-  exists t tb refg qg minm p l,
-    In p (all_parents t) /\ length (children t p) = 1%nat /\
-    (forall g, In g l -> In g refg) /\
-    (exists c, create_cache (tset p [] tb) refg qg (Some t) minm = MOk c) /\
-    create_cache (tset p l tb) refg qg (Some t) minm = MErr E_NO_OVERLAP.
-Proof.
-  exists [[(0, [0]); (1, [1; 2])]; [(0, [0]); (1, [1]); (2, [2])]],
-         [(None, [1; 2]); (Some (0%nat, 0), []); (Some (0%nat, 1), [3])],
-         [0; 1; 2; 3], [1; 2; 3], 1%nat, (Some (0%nat, 0)), [0].
-  split; [vm_compute; tauto|]. split; [reflexivity|].
-  split; [intros g [<-|[]]; vm_compute; tauto|].
-  split; [eexists; vm_compute; reflexivity | vm_compute; reflexivity].
-Qed.
-Print Assumptions c08_single_child_needs_none_refuted.
+(* ... and their entry (whatever it lists) never decides whether the cache is created.  Stated for every key
+   that needs no markers: needs_markers t p = false, i.e. p is not a parent of the tree with >= 2 children --
+   a parent with a single child (the root of a one-node top level included), a node of the leaf level, a key
+   that is no node of the (reduced) tree at all such as a node of a level removed by drop_level.
+   If the cache is created with the entry of p empty, it is created with any list l of reference genes in its
+   place, whether or not l shares a gene with the query.  (l has to consist of reference genes: a marker unknown
+   to the reference is an error wherever it is listed -- c08_errors_unknown_to_reference.  NoDup: the table is
+   a Python dict.)  The entry of p is still READ when a descendant of p falls back on its ancestors, so the two
+   runs differ in more than the entry of p; the proof is a simulation of the two folds of
+   validate_marker_lookup.  This was finding F7 (refuted by the code before the repair: the loop of
+   create_marker_cache_from_specified_markers demanded query overlap of every key of the table). *)
+Theorem c08_unneeded_entry_never_fails : forall t tb refg qg minm p l,
+  NoDup (map fst tb) ->
+  needs_markers t p = false ->
+  (forall g, In g l -> In g refg) ->
+  (exists c, create_cache (tset p [] tb) refg qg (Some t) minm = MOk c) ->
+  exists c, create_cache (tset p l tb) refg qg (Some t) minm = MOk c.
+Proof. exact unneeded_entry_is_harmless. Qed.
+Print Assumptions c08_unneeded_entry_never_fails.
+
+(* the form it had as the refuted statement: a parent with a single child *)
+Theorem c08_single_child_entry_never_fails : forall t tb refg qg minm p l,
+  NoDup (map fst tb) ->
+  In p (all_parents t) -> (length (children t p) <= 1)%nat ->
+  (forall g, In g l -> In g refg) ->
+  (exists c, create_cache (tset p [] tb) refg qg (Some t) minm = MOk c) ->
+  exists c, create_cache (tset p l tb) refg qg (Some t) minm = MOk c.
+Proof. exact single_child_entry_is_harmless. Qed.
+Print Assumptions c08_single_child_entry_never_fails.
+
+Theorem c08_not_a_parent_needs_none : forall t p, ~ In p (all_parents t) -> needs_markers t p = false.
+Proof. exact not_a_parent_needs_none. Qed.
+Print Assumptions c08_not_a_parent_needs_none.
+
+(* conversely, what is still demanded: "No markers at parent node ... were present in query set" is raised for
+   nothing but a parent of the tree with >= 2 children whose (validated) entry lists genes, none in the query
+   (possible only when min_markers = 0 keeps validate_marker_lookup from patching it) *)
+Theorem c08_no_overlap_only_for_needed : forall t tb refg qg minm,
+  create_cache tb refg qg (Some t) minm = MErr E_NO_OVERLAP ->
+  exists tb' log k l, validate_marker_lookup tb qg t minm = MOk (tb', log) /\
+    In (k, l) tb' /\ In k (all_parents t) /\ (2 <= length (children t k))%nat /\
+    l <> [] /\ (forall g, In g l -> ~ In g qg).
+Proof. exact no_overlap_only_for_needed. Qed.
+Print Assumptions c08_no_overlap_only_for_needed.
 
 (* errors: a root that has to choose between >= 2 children and has no usable marker *)
 Theorem c08_errors_root : forall t tb refg qg minm,
@@ -231,4 +253,34 @@ Example c08_example_unknown :
 Proof.
   split; [vm_compute; reflexivity|]. split; [vm_compute; reflexivity|].
   split; [eexists; vm_compute; reflexivity|]. vm_compute. repeat split; reflexivity.
+Qed.
+
+(* entries that need no markers: the witness of the former finding F7.  Node 0 of level 0 has a single child; its
+   entry [0] shares no gene with the query [1;2;3].  The cache is created, the group of node 0 is empty; the same
+   for a key of the leaf level and for a key of a level that is not in the tree.  A parent with two children
+   (node 1) in that situation, min_markers = 0: still E_NO_OVERLAP. *)
+Definition f7_tree : tree := [[(0, [0]); (1, [1; 2])]; [(0, [0]); (1, [1]); (2, [2])]].
+Definition f7_table : table := [(None, [1; 2]); (Some (0%nat, 0), []); (Some (0%nat, 1), [3])].
+Example c08_example_unneeded :
+  In (Some (0%nat, 0)) (all_parents f7_tree) /\ length (children f7_tree (Some (0%nat, 0))) = 1%nat /\
+  needs_markers f7_tree (Some (0%nat, 0)) = false /\
+  needs_markers f7_tree (Some (1%nat, 2)) = false /\ needs_markers f7_tree (Some (7%nat, 5)) = false /\
+  needs_markers f7_tree (Some (0%nat, 1)) = true /\ needs_markers f7_tree None = true /\
+  NoDup (map fst f7_table) /\
+  (exists c, create_cache (tset (Some (0%nat, 0)) [] f7_table) [0; 1; 2; 3] [1; 2; 3] (Some f7_tree) 1 = MOk c) /\
+  (exists c, create_cache (tset (Some (0%nat, 0)) [0] f7_table) [0; 1; 2; 3] [1; 2; 3] (Some f7_tree) 1 = MOk c /\
+             tget (Some (0%nat, 0)) (c_groups c) = Some ([], [])) /\
+  (exists c, create_cache (tset (Some (1%nat, 2)) [0] f7_table) [0; 1; 2; 3] [1; 2; 3] (Some f7_tree) 1 = MOk c) /\
+  (exists c, create_cache (tset (Some (7%nat, 5)) [0] f7_table) [0; 1; 2; 3] [1; 2; 3] (Some f7_tree) 1 = MOk c) /\
+  create_cache (tset (Some (0%nat, 1)) [0] f7_table) [0; 1; 2; 3] [1; 2; 3] (Some f7_tree) 0 = MErr E_NO_OVERLAP /\
+  create_cache (tset (Some (0%nat, 0)) [0] f7_table) [0; 1; 2; 3] [1; 2; 3] None 1 = MErr E_NO_OVERLAP.
+Proof.
+  split; [vm_compute; tauto|]. split; [reflexivity|].
+  do 5 (split; [vm_compute; reflexivity|]).
+  split; [repeat constructor; cbn; intuition discriminate|].
+  split; [eexists; vm_compute; reflexivity|].
+  split; [eexists; vm_compute; split; reflexivity|].
+  split; [eexists; vm_compute; reflexivity|].
+  split; [eexists; vm_compute; reflexivity|].
+  split; vm_compute; reflexivity.
 Qed.
